@@ -100,23 +100,40 @@ def run(repo, rep, tier):
                "" if ok else f"{reader} reports stored size + half the widest borders; {qual} writes that reported size back: every save/reopen cycle grows a bordered {axis} by the allowance again",
                key=f"C16.R1b@{qual}:border-allowance-drift")
     # memo discipline of the size accessors
-    for reader, sizes in (("row_height", "_row_heights"), ("col_width", "_col_widths")):
-        rf = repo.func("model.py", f"_NumbersModel.{reader}")
-        s = U(rf).replace(" ", "").replace("\n", "")
-        p = rf.args.args[3].arg
+    from .. import sizeread
+    # the per-table maps of the size memo are created empty, one per table
+    for sizes in ("_row_heights", "_col_widths"):
+        sites = []
+        for n in ast.walk(repo.tree("model.py")):
+            if isinstance(n, (ast.Assign, ast.AnnAssign)):
+                for tg in (n.targets if isinstance(n, ast.Assign) else [n.target]):
+                    if U(tg) == f"self.{sizes}" or (isinstance(tg, ast.Subscript) and U(tg.value) == f"self.{sizes}"):
+                        sites.append((n, tg))
+            elif isinstance(n, ast.Call) and isinstance(n.func, ast.Attribute) and n.func.attr == "setdefault" and U(n.func.value) == f"self.{sizes}" and len(n.args) == 2:
+                sites.append((n, None))
+        if not sites:
+            raise AnalysisError(f"no initialisation of self.{sizes} found in model.py")
+        bad = []
+        for n, tg in sites:
+            v = n.args[1] if tg is None else n.value
+            fresh_empty = (isinstance(v, ast.Dict) and not v.keys) or (isinstance(v, ast.Call) and U(v) in ("dict()", "defaultdict(dict)"))
+            if not fresh_empty:
+                bad.append((n, U(v)[:70]))
+        rep.ob("C16.R2", bad[0][0] if bad else sites[0][0], f"self.{sizes}: the memo and each table's map in it start as a fresh empty dict ({len(sites)} sites)", not bad,
+               "" if not bad else f"`{bad[0][1]}`: the per-table maps are not fresh empty dicts of their own (a shared or pre-filled map makes one table's sizes answer for another's)",
+               key=f"C16.R2@{sizes}:fresh-maps")
+    for reader, idxname in (("row_height", "row"), ("col_width", "column")):
+        rf, n_sc, pr = sizeread.check(repo, reader)
         idx = rf.args.args[2].arg
-        ok = f"if{p}isnotNone:iftable_idnotinself.{sizes}:self.{sizes}[table_id]={{}}self.{sizes}[table_id][{idx}]={p}return{p}" in s
-        rep.ob("C16.R2", rf, f"{reader}: setting stores the value for exactly (table, {idx})", ok, "", key=f"C16.R2@{reader}:set")
-        ok = f"iftable_idinself.{sizes}and{idx}inself.{sizes}[table_id]:returnself.{sizes}[table_id][{idx}]" in s
-        rep.ob("C16.R2", rf, f"{reader}: a set or memoised value is returned as is", ok, "", key=f"C16.R2@{reader}:get-memo")
-        ok = f"bucket_map={{x.index:xforxinbuckets}}" in s and f"if{idx}inbucket_mapandbucket_map[{idx}].size!=0.0:" in s
-        rep.ob("C16.R2", rf, f"{reader}: stored size looked up by the header's own index", ok, "", key=f"C16.R2@{reader}:lookup")
-    s = U(repo.func("model.py", "_NumbersModel.row_height"))
-    ok = "bds.rowHeaders.buckets[0].identifier" in s and "table_model.default_row_height" in s
-    rep.ob("C16.R2", repo.func("model.py", "_NumbersModel.row_height"), "row_height reads the row header bucket and the default row height", ok, "", key="C16.R2@row_height:fields")
-    s = U(repo.func("model.py", "_NumbersModel.col_width"))
-    ok = "bds.columnHeaders.identifier" in s and "table_model.default_column_width" in s
-    rep.ob("C16.R2", repo.func("model.py", "_NumbersModel.col_width"), "col_width reads the column header bucket and the default column width", ok, "", key="C16.R2@col_width:fields")
+
+        def emit(cat, title, key):
+            ps = pr[cat]
+            rep.ob("C16.R2", ps[0][0] if ps else rf, f"{reader}: {title} ({n_sc} scenarios of the summarised accessor)", not ps,
+                   "" if not ps else ps[0][1] + (f" (and {len(ps) - 1} more)" if len(ps) > 1 else ""), key=key)
+        emit("set", f"setting stores the value for exactly (table, {idx})", f"C16.R2@{reader}:set")
+        emit("get-memo", "a set or memoised value is returned as is; a computed size is memoised under the same key", f"C16.R2@{reader}:get-memo")
+        emit("lookup", "stored size looked up by the header's own index", f"C16.R2@{reader}:lookup")
+        emit("fields", f"reads the {idxname} header bucket of the table and the table's default size", f"C16.R2@{reader}:fields")
     s1, s2 = U(repo.func("model.py", "_NumbersModel.recalculate_row_headers")), U(repo.func("model.py", "_NumbersModel.recalculate_column_headers"))
     ok = "base_data_store.rowHeaders.buckets[0].identifier" in s1 and "base_data_store.columnHeaders.identifier" in s2
     rep.ob("C16.R2", repo.func("model.py", "_NumbersModel.recalculate_row_headers"), "writers fill the same buckets the readers consult", ok, "", key="C16.R2@buckets-agree")
@@ -267,6 +284,12 @@ def _anc(n):
 
 
 VARIANTS = [
+    M("size-memo-shared-map", "model.py", "        self._row_heights = {}\n", "        self._row_heights = dict.fromkeys(self.table_ids(), {})\n", "C16.R2"),
+    M("size-reader-by-position", "model.py", "        if row in bucket_map and bucket_map[row].size != 0.0:\n            height = round(bucket_map[row].size)",
+      "        if row < len(buckets) and buckets[row].size != 0.0:\n            height = round(buckets[row].size)", "C16.R2"),
+    M("size-setter-wrong-key", "model.py", "            self._col_widths[table_id][col] = width\n            return width", "            self._col_widths[table_id][col + 1] = width\n            return width", "C16.R2"),
+    T("size-reader-setdefault", "model.py", "        if table_id not in self._row_heights:\n            self._row_heights[table_id] = {}\n        self._row_heights[table_id][row] = floor(height)\n        return self._row_heights[table_id][row]",
+      "        memo = self._row_heights.setdefault(table_id, {})\n        memo[row] = floor(height)\n        return memo[row]"),
     M("revert-fix-literal-height", "model.py", "            height = current_row_heights[row]\n",
       "            if table_id in self._row_heights and row in self._row_heights[table_id]:\n                height = self._row_heights[table_id][row]\n            else:\n                height = 0.0\n", "C16.R1"),
     M("read-after-clear", "model.py",
